@@ -1,5 +1,5 @@
 //! cache_trace: trace generator / replayer / small-scope enumerator for the real LruCache.
-//!   cache_trace gen <seed> <ntraces> <steps> [profile] [types]   types: dd (default) | pd | dp | df
+//!   cache_trace gen <seed> <ntraces> <steps> [profile] [types]   types: dd (default) | pd | dp | df | dn
 //!   cache_trace replay <file>        (the instantiation is read from the file's first CFG line)
 //!   cache_trace exhaust <depth> <alphabet 0|1> <hasher>
 use harness::*;
@@ -48,6 +48,7 @@ fn main() {
         "pd" => run_with!(trace_pd, &args, &mut out),
         "dp" => run_with!(trace_dp, &args, &mut out),
         "df" => run_with!(trace_df, &args, &mut out),
+        "dn" => run_with!(trace_dn, &args, &mut out),
         _ => run_with!(trace, &args, &mut out),
     }
     use std::io::Write as _;
